@@ -92,7 +92,7 @@ def addFtiRaptor (oti : Oti) (tl : Nat) : Rs (List Nat × Nat) :=
   match oti.ss with
   | .none => .error "debug_assert!(oti.scheme_specific.is_some())"
   | .raptor z n al =>
-    -- RFC 5053 layout (repair of D23; was the RaptorQ layout with a 40-bit transfer length)
+    -- RFC 5053 layout (repair of D35; was the RaptorQ layout with a 40-bit transfer length)
     .ok ([64, 4] ++ beBytes 8 ((tl * 2^16) % 2^64) ++ beBytes 2 oti.esl ++ beBytes 2 z ++ [n] ++ [al], 4)
   | _ => .error "debug_assert!(false)"
 
@@ -243,7 +243,7 @@ def pidOfBytes (oti : Oti) (p : List Nat) : Out PayloadId :=
     else if oti.fecId = RS28 then .ok { sbn := v / 2^8, esi := v % 2^8, sbl := none }
     else if oti.fecId = RS2M then
       let m := rsM oti
-      if m ≥ 32 then .err                        -- repair of D22 (was a shift-overflow panic)
+      if m ≥ 32 then .err                        -- repair of D34 (was a shift-overflow panic)
       else .ok { sbn := v / 2^m, esi := v % 2^m, sbl := none }       -- `v & ((1 << m) - 1)`
     else if oti.fecId = RAPTORQ then .ok { sbn := v / 2^24, esi := v % 2^24, sbl := none }
     else if oti.fecId = RAPTOR then .ok { sbn := v / 2^16, esi := v % 2^16, sbl := none }
